@@ -67,6 +67,11 @@ struct Helpers {
     hb: String,
     ht1: String,
     ht2: String,
+    /// local of the nested array type `HM = array [2] of array [2] of int` (its rows are of another
+    /// type that stems from the same declaration)
+    hm: String,
+    /// helper procedure with one reference parameter of type HM
+    hq: (usize, String),
 }
 
 fn all_names(prog: &Prog) -> Vec<String> {
@@ -104,7 +109,15 @@ fn with_helpers(s: &mut Src, base: &Prog, need_non_main: bool) -> Option<Helpers
     let ht = fresh(&mut taken, "HT");
     let ty = Ty::Arr { size: 2, base: Box::new(Ty::Int), creator: ht.clone() };
     prog.types.push(TypeDecl { name: ht.clone(), expr: TExpr::Array(Lit::Dec(2, "2".into()), Box::new(TExpr::Named("int".into()))), ty: ty.clone() });
+    let ht_index = prog.types.len() - 1;
+    let hmt = fresh(&mut taken, "HM");
+    let row = Ty::Arr { size: 2, base: Box::new(Ty::Int), creator: hmt.clone() };
+    let mty = Ty::Arr { size: 2, base: Box::new(row), creator: hmt.clone() };
+    let arr_int = || TExpr::Array(Lit::Dec(2, "2".into()), Box::new(TExpr::Named("int".into())));
+    prog.types.push(TypeDecl { name: hmt.clone(), expr: TExpr::Array(Lit::Dec(2, "2".into()), Box::new(arr_int())), ty: mty.clone() });
     prog.order.insert(0, Decl::Type(prog.types.len() - 1));
+    // HT stays the first declaration (injectors insert behind position 0)
+    prog.order.insert(0, Decl::Type(ht_index));
     let cands: Vec<usize> = (0..prog.procs.len()).filter(|j| !need_non_main || prog.procs[*j].name != "main").collect();
     if cands.is_empty() {
         return None;
@@ -124,8 +137,15 @@ fn with_helpers(s: &mut Src, base: &Prog, need_non_main: bool) -> Option<Helpers
     locals.push(VarDecl { name: hb.clone(), is_ref: false, expr: arr(), ty: anon(&hb) });
     locals.push(VarDecl { name: ht1.clone(), is_ref: false, expr: TExpr::Named(ht.clone()), ty: ty.clone() });
     locals.push(VarDecl { name: ht2.clone(), is_ref: false, expr: TExpr::Named(ht.clone()), ty });
+    let hm = fresh(&mut taken, "hm");
+    locals.push(VarDecl { name: hm.clone(), is_ref: false, expr: TExpr::Named(hmt.clone()), ty: mty.clone() });
+    let hqn = fresh(&mut taken, "hq");
+    let qn = fresh(&mut taken, "hqm");
+    prog.procs.push(Proc { name: hqn.clone(), params: vec![VarDecl { name: qn, is_ref: true, expr: TExpr::Named(hmt.clone()), ty: mty }], locals: vec![], body: vec![] });
+    let hq = (prog.procs.len() - 1, hqn);
+    prog.order.push(Decl::Proc(hq.0));
     let decl = prog.order.iter().position(|d| *d == Decl::Proc(p)).unwrap();
-    Some(Helpers { prog, p, decl, ht, hi, ha, hb, ht1, ht2 })
+    Some(Helpers { prog, p, decl, ht, hi, ha, hb, ht1, ht2, hm, hq })
 }
 
 /// A declared procedure with at least `min` parameters whose reference parameters can all be
@@ -481,7 +501,17 @@ pub fn inject(s: &mut Src, base: &Prog, kind: usize) -> Option<Fault> {
             let empty = || Box::new(Stmt::Empty);
             let (stmt, message, sub, exact): (Stmt, String, Vec<usize>, bool) = match name {
                 "AssignmentHasDifferentTypes" => {
-                    if s.chance(1, 2) {
+                    if s.chance(1, 3) {
+                        // a row of a nested array type against the whole type: different types
+                        // that stem from the same declaration
+                        let hm = local_var(&h, &h.hm);
+                        let row = Var::Index(Box::new(hm.clone()), Box::new(int_lit(s.below(2) as u32)));
+                        if s.chance(1, 2) {
+                            (Stmt::Assign(row, ev(&hm)), "assignment has different types".into(), vec![], false)
+                        } else {
+                            (Stmt::Assign(hm, Expr::Var(row)), "assignment has different types".into(), vec![], false)
+                        }
+                    } else if s.chance(1, 2) {
                         (Stmt::Assign(hi.clone(), ev(&ha)), "assignment has different types".into(), vec![], false)
                     } else {
                         (Stmt::Assign(hx.clone(), ev(&ha)), "assignment has different types".into(), vec![], false)
@@ -511,7 +541,17 @@ pub fn inject(s: &mut Src, base: &Prog, kind: usize) -> Option<Fault> {
                         return None;
                     }
                     let user = if s.chance(1, 2) { callable_user_proc(s, &h, 1) } else { None };
-                    if let Some((j, mut args)) = user {
+                    if s.chance(1, 4) && !is_local(&h, &h.hq.1) {
+                        // the row of a matrix where the matrix is expected (same declaring type)
+                        let hm = local_var(&h, &h.hm);
+                        let row = Var::Index(Box::new(hm), Box::new(int_lit(s.below(2) as u32)));
+                        (
+                            Stmt::Call(h.hq.1.clone(), Bind::Proc(h.hq.0), vec![Expr::Var(row)]),
+                            format!("procedure `{}` argument `1` type mismatch", h.hq.1),
+                            vec![1],
+                            false,
+                        )
+                    } else if let Some((j, mut args)) = user {
                         // one argument of the wrong type: an array where an int is expected, or an
                         // array of another type where the helper array type is expected
                         let k = s.below(args.len());
